@@ -26,7 +26,7 @@ COMPONENTS_STUB = ["UDP socket (SimSocket)", "scripted clients (reference codec)
 ASSUMPTIONS = ["a renderable error's own code and message are its class/instance attributes `code` and `message`",
                "'bare 5.00' is taken to mean code 5.00 with an empty payload"]
 EXPECTED_PROBES = ["renderable_error", "generic_exception", "wrong_return_type", "failing_renderer", "slow_failure",
-                   "default_code", "not_found", "method_not_allowed", "not_a_server", "concurrent_neighbours", "gc_while_handler_waits", "non_renderable_with_to_message"]
+                   "default_code", "not_found", "method_not_allowed", "not_a_server", "concurrent_neighbours", "gc_while_handler_waits", "non_renderable_with_to_message", "request_over_tcp"]
 
 SECRET = "SECRET-9f3a-MARKER"
 METHODS = {"GET": 1, "POST": 2, "PUT": 3, "DELETE": 4, "FETCH": 5, "PATCH": 6, "IPATCH": 7}
@@ -68,6 +68,11 @@ def gen(r, tier):
         q["t"] = round(t, 4)
         q["client"] = r.randrange(2)
         q["repeat"] = round(r.choice([0.05, 0.15, 0.5]), 3) if (q["con"] and r.chance(0.15)) else None
+        if r.chance(0.2):
+            # the same request over CoAP-over-TCP (the server listens on both): the handler outcome must be reflected
+            # all the same; message types and retransmission do not exist there
+            q["tcp"] = True
+            q["repeat"] = None
         reqs.append(q)
     # the garbage collector is part of the schedule: it is off while a run proceeds and runs exactly at these times
     gc_at = sorted(round(r.uniform(0, t + 3), 3) for _ in range(r.choice([0, 1, 2, 4])))
@@ -105,6 +110,9 @@ def systematic(tier):
                                "t": tt, "repeat": None} for k, tt in ((1, 0.0), (2, 0.0), (3, 2.0))]
                         out.append({"reqs": [q] + nb, "nosite": False, "net": {}, "stall": False,
                                     "gc_at": [0.5] if kind == "wait_weak" else []})
+                        if con and method == "GET":
+                            out.append({"reqs": [dict(q, tcp=True)] + nb, "nosite": False, "net": {}, "stall": False,
+                                        "gc_at": [0.5] if kind == "wait_weak" else []})
     for con in (True, False):
         out.append({"reqs": [{"id": 0, "kind": "ret_nocode", "method": "GET", "con": con, "slow": False, "client": 0,
                               "t": 0.0, "repeat": None}], "nosite": True, "net": {}, "stall": False})
@@ -278,9 +286,34 @@ def execute(sim, scn):
         site.add_resource(["zoo"], Zoo())
         site.add_resource(["getonly"], GetOnly())
         site.add_resource(["raw"], RawRender())
-        return await sim.server(None if scn.get("nosite") else site, common.SERVER_IP)
+        if not any(q.get("tcp") for q in scn["reqs"]):
+            return await sim.server(None if scn.get("nosite") else site, common.SERVER_IP)
+        from simkit.stream import SimStreamNet
+        loop.streamnet = SimStreamNet(sim)
+        ctx = await aiocoap.Context.create_server_context(None if scn.get("nosite") else site, bind=(common.SERVER_IP, 5683),
+                                                          transports=["udp6", "tcpserver"], loggername="coap-server")
+        sim.contexts.append(ctx)
+        return ctx
 
     loop.run_until_complete(setup())
+    tcp_peers = {}
+
+    def tcp_peer(ci):
+        from simkit.stream import TcpPeer
+        if ci not in tcp_peers:
+            p = TcpPeer(sim, "tcp-client#%d" % ci)
+            tcp_peers[ci] = p
+
+            async def go():
+                await p.connect(common.SERVER_IP, 5683)
+                p.write(rc.tcp_encode({"code": rc.CSM, "token": b"", "options": [], "payload": b""}))
+            p.ready = loop.create_task(go())
+        return tcp_peers[ci]
+
+    for q in scn["reqs"]:
+        if q.get("tcp"):
+            tcp_peer(q["client"])
+            sim.probe("request_over_tcp")
     sim.net.fate_gen = None
     srv = (common.SERVER_IP, 5683)
     if scn.get("same_host"):
@@ -303,6 +336,19 @@ def execute(sim, scn):
         path = {"missing": b"nowhere", "get_only": b"getonly", "raw_render_nonmessage": b"raw"}.get(q["kind"], b"zoo")
         m = {"type": rc.CON if q["con"] else rc.NON, "code": METHODS[q["method"]], "mid": 0x100 + q["id"],
              "token": token, "options": [(rc.URI_PATH, path), (rc.URI_QUERY, b"r=%d" % q["id"])], "payload": b""}
+        if q.get("tcp"):
+            def send_tcp(q=q, m=m):
+                p = tcp_peers[q["client"]]
+
+                async def when_connected():
+                    await p.ready  # (a stalled loop may have delayed the connection)
+                    if p.is_open:
+                        p.send({"code": m["code"], "token": m["token"], "options": m["options"], "payload": m["payload"]})
+                    if q["kind"] == "wait_weak":
+                        loop.after((0.3 if q["slow"] else 0) + q["wake"], wake, q["id"])
+                loop.create_task(when_connected())
+            loop.at(max(q["t"], 0.01), send_tcp)
+            continue
         raw = rc.encode(m)
         cl.send(srv, raw=raw, fate=["at", q["t"]])
         if q["kind"] == "wait_weak":
@@ -334,22 +380,35 @@ def execute(sim, scn):
         if e["src"] == srv and SECRET.encode() in e["data"]:
             sim.violation("C09/exception-text-leaked", {"t": e["t"], "datagram": e["data"].hex()[:200]})
             break
+    from simkit.stream import split_frames
+    tcp_rx = {}
+    for ci, p in tcp_peers.items():
+        frames, _rest = split_frames(p.rx)
+        tcp_rx[ci] = [{"msg": dict(m, type=None), "data": bytes(p.rx[a:b]), "t": None} for (a, b, m, err) in frames if m is not None]
+        if SECRET.encode() in bytes(p.rx):
+            sim.violation("C09/exception-text-leaked", {"transport": "tcp", "stream": bytes(p.rx).hex()[:200]})
     for q in scn["reqs"]:
         cl_addr, token = tokens[q["id"]]
         ident = {"req": q["id"], "kind": q["kind"], "method": q["method"], "con": q["con"], "slow": q["slow"],
                  "cls": q.get("cls")}
+        if q.get("tcp"):
+            ident["transport"] = "tcp"
         resp = [e for e in wire if e["src"] == srv and e["dst"] == cl_addr and e["msg"] is not None
                 and e["msg"]["token"] == token and e["msg"]["code"] >= 64]
+        if q.get("tcp"):
+            resp = [e for e in tcp_rx.get(q["client"], []) if e["msg"]["token"] == token and 64 <= e["msg"]["code"] < 224]
         distinct = []
         for e in resp:
             if e["data"] not in [d["data"] for d in distinct]:
                 distinct.append(e)
-        if not distinct and gave_up_towards(cl_addr):
+        if q.get("tcp"):
+            distinct = list(resp)  # a stream neither loses nor repeats: every frame counts
+        if not distinct and not q.get("tcp") and gave_up_towards(cl_addr):
             # all five copies of an earlier confirmable response to this client were lost: the message layer reports a
             # transport failure for the endpoint and drops what was held back for it (NSTART).  Narrow relaxation.
             sim.anomaly("response-dropped-after-give-up-towards-client", q["kind"])
             continue
-        if not distinct and q["kind"] == "ret_unserializable" and q["slow"] and q["con"]:
+        if not distinct and q["kind"] == "ret_unserializable" and q["slow"] and q["con"] and not q.get("tcp"):
             # known finding: the message is only serialised when it is put on the wire; for a separate (confirmable)
             # response that happens after send_message returned, so the failure is not turned into a 5.00
             sim.violation("C09/unserializable-separate-response-unanswered", dict(ident))
@@ -403,7 +462,7 @@ def execute(sim, scn):
                 sim.violation("C09/wrong-response-payload", dict(ident, got=m["payload"].hex()[:80],
                                                                 expected=exp_payload.hex()[:80]))
         # type discipline of the final response
-        if not q["con"] and m["type"] != rc.NON:
+        if not q["con"] and not q.get("tcp") and m["type"] != rc.NON:
             sim.violation("C09/non-request-answered-with-other-type", dict(ident, type=m["type"]))
     for (t, m, en, es) in sim.loop_exceptions():
         sim.anomaly("loop-exception:%s" % en, "%s %s" % (m, es))
